@@ -5,7 +5,7 @@ import struct
 from hypothesis import strategies as st
 from hypothesis.stateful import RuleBasedStateMachine, rule
 
-from ..runner import Violation, unexpected, digest
+from ..runner import Violation, unexpected, digest, guarded
 from ..ref import murmur as R, wire as W
 from .. import libx, gen
 
@@ -214,7 +214,7 @@ def machine_factory(ctx):
             self.ensure()
             self.case['ops'].append(op)
             try:
-                self.w.apply(op)
+                guarded(self.w.apply, op)
             except Violation as v:
                 v.case = dict(self.case, ops=list(self.case['ops']))
                 if ctx.should_raise(v, v.case):
